@@ -52,6 +52,20 @@ def _guard_clause_property(tree):
     return False
 
 
+def _cache_type_first(tree):
+    cls = find_def(tree, 'BeartypeForwardRefMeta')
+    fn = next((f for f in cls.body if isinstance(f, ast.FunctionDef) and f.name == '__resolved_type_beartype__'), None)
+    if fn is None:
+        return False
+    ci = next((i for i, s in enumerate(fn.body) if isinstance(s, ast.Expr) and '_cache_ref_proxy_referent_type' in ast.unparse(s)), None)
+    vi = next((i for i, s in enumerate(fn.body) if isinstance(s, ast.If) and 'is_object_isinstanceable' in ast.unparse(s.test)), None)
+    if ci is None or vi is None or ci < vi:
+        return False
+    st = fn.body.pop(ci)
+    fn.body.insert(vi, st)
+    return True
+
+
 VARIANTS = {
     # ---- R1 exception family ---------------------------------------------------------------------------------
     'scope-maker-defaults-to-nonpep-exception': tseeded(SMAKE, lambda t: _default(t, 'make_scope_forward_decor_curr', 'BeartypeDecorHintNonpepException'),
@@ -108,6 +122,16 @@ VARIANTS = {
         t, lambda n: isinstance(n, ast.ExceptHandler) and n.type is not None and ast.unparse(n.type) == 'Exception',
         lambda n: (setattr(n, 'type', expr('NameError')) or n), scope='_resolve_hint_pep484_ref_str'), 'C07.R6',
         'a SyntaxError / AttributeError of the evaluated string escapes bare'),
+    # ---- R7 the proxy's verdict ---------------------------------------------------------------------------------------------
+    'proxy-instancecheck-generic-via-isinstance': tseeded(META, lambda t: replace_where(
+        t, lambda n: isinstance(n, ast.If) and 'is_object_isinstanceable(resolved_hint)' in ast.unparse(n.test),
+        lambda n: (setattr(n, 'test', expr('is_object_isinstanceable(resolved_hint)')) or n), scope='BeartypeForwardRefMeta.__instancecheck__'),
+        'C07.R7', 'a forward reference to a generic is tested by bare isinstance(): items unchecked'),
+    'proxy-subclasscheck-against-the-hint': tseeded(META, lambda t: replace_where(
+        t, lambda n: isinstance(n, ast.Assign) and ast.unparse(n.value) == 'cls.__resolved_type_beartype__',
+        lambda n: (setattr(n, 'value', expr('cls.__resolved_hint_beartype__')) or n), scope='BeartypeForwardRefMeta.__subclasscheck__'), 'C07.R7'),
+    'referent-type-memoised-before-validation': tseeded(META, _cache_type_first, 'C07.R7',
+                                                        'a non-isinstanceable referent is remembered: the second check no longer raises'),
     # ---- neutral -------------------------------------------------------------------------------------------------------------
     'n-roundtrip-fwdrefmeta': roundtrip(META),
     'n-roundtrip-fwdscopemake': roundtrip(SMAKE),
